@@ -685,7 +685,7 @@ class Interp:
             self.lib.setitem(self, d, self.eval(k, env), self.eval(v, env), node)
         return d
 
-    _SIMPLE = (ast.Compare, ast.BoolOp, ast.Name, ast.Constant, ast.Attribute, ast.Subscript, ast.Tuple)
+    _SIMPLE = (ast.Compare, ast.BoolOp, ast.BinOp, ast.Name, ast.Constant, ast.Attribute, ast.Subscript, ast.Tuple)
 
     def _simple_bool(self, n):
         """syntactic forms that are evaluated without side effects: a boolean operator over
